@@ -423,6 +423,9 @@ func (s *simscreen) SetSize(w, h int) {
 	s.cursorx, s.cursory = -1, -1
 	s.physw, s.physh = w, h
 	s.front = newc
+	// cells the physical screen lost must be painted again even if
+	// the size is back to what the cell buffer has by the next draw
+	s.back.Invalidate()
 	s.Unlock()
 }
 
